@@ -39,7 +39,7 @@ ASSUMPTIONS = [
 SHARDS = {"quick": 4, "thorough": 16}
 BUDGET_S = {"quick": 80, "thorough": 800}
 FLOORS = {
-    "quick": {"c14.cases": 80, "c14.sort.evals": 2200, "c14.sort.nontrivial": 1500, "c14.sort.multikey": 1000, "c14.group.evals": 1300,
+    "quick": {"c14.layout.segment_over_2048_docs": 1, "c14.layout.rewritten_with_deletions": 3, "c14.cases": 80, "c14.sort.evals": 2200, "c14.sort.nontrivial": 1500, "c14.sort.multikey": 1000, "c14.group.evals": 1300,
               "c14.collapse.evals": 1200, "c14.collapse.eliminating": 600, "c14.filter.evals": 1200, "c14.filter.empty_operand": 300,
               "c14.page.evals": 1200, "c14.page.empty_results": 120, "c14.page.beyond_last": 500, "c14.len.evals": 7000,
               "c14.layout.mixed_columns": 18, "c14.layout.added": 8, "c14.layout.multiseg_with_deletions": 20},
@@ -142,7 +142,15 @@ class Case(object):
         small = rng.random() < 0.25
         self.big = rng.random() < 0.12
         self.blocklimit = rng.choice([2, 4, 128, 128])
-        if self.big:
+        hr = random.Random("c14-huge:%r" % rng.random()).random()
+        self.huge = hr < 0.035
+        if self.huge:
+            # one segment beyond the 2048-document part size of the array union (plus, sometimes, a small one before it)
+            self.nseg = 1 if hr < 0.02 else 2
+            sizes = ([rng.randint(3, 30)] if self.nseg == 2 else []) + [rng.randint(2100, 2900)]
+            if self.colmode in ("late", "early", "added_then_more") and self.nseg < 2:
+                self.colmode = "all"
+        elif self.big:
             sizes = [rng.randint(30, 90) for _ in range(self.nseg)]
         else:
             sizes = [rng.randint(1, 4 if small else 12) for _ in range(self.nseg)]
@@ -224,6 +232,14 @@ def gen_query(rng):
     if r < 0.7:
         w = rng.choice(WORDS)
         return query.Term("t", w), (lambda d: w in d["t"].split())
+    if r < 0.78:
+        # three clauses: the union buffers scores per 2048-document part (array union) and is consumed through all_ids()
+        # by sorted / filtered / faceted searches
+        w1, w2, w3 = rng.sample(WORDS, 3)
+        # (constant score: a sum of three term scores depends in its last bit on the order of the additions, which
+        # differs between matcher implementations - score ties must be exact ties for the tie-order clause)
+        return (query.ConstantScoreQuery(query.Or([query.Term("t", w1), query.Term("t", w2), query.Term("t", w3)]), 1.0),
+                (lambda d: bool({w1, w2, w3} & set(d["t"].split()))))
     if r < 0.9:
         w1, w2 = rng.sample(WORDS, 2)
         return query.Or([query.Term("t", w1), query.Term("t", w2)]), (lambda d: w1 in d["t"].split() or w2 in d["t"].split())
@@ -1033,6 +1049,8 @@ def run(ctx):
             ctx.count("c14.layout.mixed_columns")
         if case.nseg > 1 and case.deletes:
             ctx.count("c14.layout.multiseg_with_deletions")
+        if case.huge:
+            ctx.count("c14.layout.segment_over_2048_docs")
         if case.after:
             ctx.count("c14.layout.rewritten_by_%s" % case.after)
             if case.deletes:
